@@ -16,6 +16,7 @@ STUBS = [
     "replaced by an insertion-ordered set model",
     "format() of Element/_Property objects returns a placeholder",
     "exec/eval/compile of symbolic text via crosshair.realize",
+    "CrossHair float representation pinned to RealBasedSymbolicFloat (floats as reals, CrossHair's UNKNOWN cap for that model lifted: int->float conversion and int/float comparison are exact in this model; rounding of |v| > 2**53 and float arithmetic are outside every E1 claim)",
     "_AnonymousObject.__getattr__ raises AttributeError (not KeyError) for CrossHair's private '__ch_*' probes",
 ]
 
@@ -154,6 +155,20 @@ def install(message_stub=True, set_shim=True):
         return "<schema>" if is_schema else _orig_format(obj, format_spec)
 
     core._PATCH_REGISTRATIONS[format] = _fmt
+
+    _orig_get = builtinslib.ModelingDirector.get
+
+    def _get(self, typ):
+        if typ is float:
+            return builtinslib.RealBasedSymbolicFloat
+        return _orig_get(self, typ)
+
+    builtinslib.ModelingDirector.get = _get
+    # CrossHair caps every path that touches a real-modelled float at UNKNOWN; we accept the
+    # real model (stated in STUBS): statham only converts int->float and compares.
+    from crosshair import statespace
+
+    statespace.StateSpace.cap_result_at_unknown = lambda self: None
 
 
 _structural = False
